@@ -21,6 +21,9 @@ class InnerSubscription(abc.DisposableBase):
     def dispose(self) -> None:
         with self.lock:
             if not self.subject.is_disposed and self.observer:
-                if self.observer in self.subject.observers:
-                    self.subject.observers.remove(self.observer)
+                # The subject clears its observers under its own lock when it
+                # terminates on another thread: test and remove atomically.
+                with self.subject.lock:
+                    if self.observer in self.subject.observers:
+                        self.subject.observers.remove(self.observer)
                 self.observer = None
